@@ -179,7 +179,9 @@ def stepTTL (m : TTL.Map Nat) (now : Nat) (f : List String) : St × String :=
         let (m2, gone) := probes.foldl (fun (acc : TTL.Map Nat × List String) p =>
           let g := acc.1.get p now
           (g.1, if g.2.isNone then acc.2 ++ [p] else acc.2)) (m1, [])
-        let goneStr := if probes.isEmpty then "" else " gone=" ++ joinC gone
+        let goneStr := match Driver.kv f "probe" with
+          | some _ => " gone=" ++ joinC gone
+          | none => ""
         (.ttl m2 now, flag ++ "ok len=" ++ toString m1.entries.length ++ goneStr)
   | ["at", t, "get", k] =>
     match t.toNat? with
